@@ -7,6 +7,8 @@
 //   R v...                    remove_simplex
 //   V x                       eager: remove_vertex(x); lazy (no such member): remove_simplex({x})
 //   C x y                     contraction(x, y)
+//   F k                       filler: insert k disjoint edges on fresh labels (far outside the universe) into the LAZY map only,
+//                             so that its deferred cleaning (size threshold) really runs; must be invisible on the universe
 // output: one line per input line
 //   G ...  -> "ok"
 //   op     -> "E <ret> nv=<n> nm=<n> max=<masks> mem=<bits> mx=<bits> cof=<masks;masks;...> lim=<0|1> || L <ret> nv=<n> size=<n> mem=<bits> e=<0|1>"
@@ -55,6 +57,8 @@ int main() {
   std::unique_ptr<Gudhi::Toplex_map> E;
   std::unique_ptr<Gudhi::Lazy_toplex_map> L;
   std::string line;
+  unsigned long long filler_next = 1ull << 40;
+  std::size_t fillers = 0;
   char buf[1 << 16];
   while (fgets(buf, sizeof buf, stdin)) {
     line = buf;
@@ -66,6 +70,7 @@ int main() {
     while (is >> x) a.push_back((Vertex)x);
     if (op == "G") {
       U = a;
+      fillers = 0;
       E.reset(new Gudhi::Toplex_map());
       L.reset(new Gudhi::Lazy_toplex_map());
       vh::emit("ok");
@@ -73,16 +78,28 @@ int main() {
     }
     if (!E) { vh::emit("nogroup"); continue; }
     std::string re = "-", rl = "-";
+    if (op == "F") {
+      try {
+        for (unsigned long long i = 0; i < (a.empty() ? 0 : a[0]); i++) {
+          std::vector<Vertex> e{(Vertex)filler_next, (Vertex)(filler_next + 1)};
+          filler_next += 2;
+          L->insert_simplex(e);
+          fillers++;
+        }
+      } catch (const std::exception&) { rl = "EXC"; }
+    }
     try {
-      if (op == "I") E->insert_simplex(a);
+      if (op == "F") {}
+      else if (op == "I") E->insert_simplex(a);
       else if (op == "R") E->remove_simplex(a);
       else if (op == "V") E->remove_vertex(a.at(0));
       else if (op == "C") re = std::to_string(E->contraction(a.at(0), a.at(1)));
       else re = "badop";
     } catch (const std::exception&) { re = "EXC"; }
     try {
-      if (op == "I") L->insert_simplex(a);
-      else if (op == "R") L->remove_simplex(a);
+      if (op == "F") {}
+      else if (op == "I") L->insert_simplex(a);
+      else if (op == "R") { L->remove_simplex(a); if (a.empty()) fillers = 0; /* the empty simplex clears the map */ }
       else if (op == "V") { std::vector<Vertex> s{a.at(0)}; L->remove_simplex(s); }
       else if (op == "C") rl = std::to_string(L->contraction(a.at(0), a.at(1)));
       else rl = "badop";
@@ -113,7 +130,7 @@ int main() {
       std::string mem;
       for (unsigned m = 1; m < N; m++) mem += L->membership(set_of(m)) ? '1' : '0';
       bool e = L->membership(set_of(0));
-      o += " nv=" + std::to_string(L->num_vertices()) + " size=" + std::to_string(L->num_maximal_simplices());
+      o += " nv=" + std::to_string(L->num_vertices() - 2 * fillers) + " size=" + std::to_string(L->num_maximal_simplices() - fillers);
       o += " mem=x" + mem + " e=" + (e ? "1" : "0");
     } catch (const std::exception&) { o += " QEXC"; }
     vh::emit(o);
